@@ -3960,3 +3960,96 @@ ARGS_REQUIRED = dict(
            ("inspect.Parameter.empty", "AEmpty", "ann")],
     raises=[("The given object is not a class", 29)])
 ALL += [ARGS_GET_CLASS, ARGS_CREATE_INSTANCE, ARGS_REQUIRED]
+# ---- C19, continued (lorch): the rest of nextflow/scripts/batchie.py (vocabulary: end of Model/Orchestrate.v; one Proofs file per
+# function or group: Proofs/C19Source_ValidateInitial.v, C19Source_GetArgs.v, C19Source_Paths.v).
+# validate_initial_output_dir_and_get_result_files_as_dict: handed the job directory of the initial step (a globbed plate directory,
+# as for C19_GET_SCREEN / C19_VALIDATE); the three globs, the `or` of the two emptiness tests, the three l[0] reads IN THEIR ORDER
+# (test_screen_glob[0] first: IndexError when only the test screen is missing), the `with`, which variable goes under which key of
+# the returned dict come from the translation.
+C19_VALIDATE_INITIAL = dict(
+    file="nextflow/scripts/batchie.py", out="SrcOrchInit.v", imports="Model.Orchestrate", monad=_SRES, overload=True,
+    func="validate_initial_output_dir_and_get_result_files_as_dict", name="src_validate_initial", pyparams=["output_dir"],
+    params=[("output_dir", "plate_path")], returns="opt initial_files",
+    vars={"test_screen_glob": "list spath", "training_screen_glob": "list spath", "screen_metadata": "list Z",
+          "test_screen": "spath", "training_screen": "spath", "f": "Z", "screen_metadata_obj": "Z"},
+    retype={"screen_metadata": ["Z"]},
+    contexts=[("open(screen_metadata, 'r')", "screen_metadata'", "Z")],
+    prims=[(_GLOB % "test.screen.h5", "glob_in_plate output_dir' KTest", "list spath"),
+           (_GLOB % "training.screen.h5", "glob_in_plate output_dir' KTraining", "list spath"),
+           (_GLOB % "screen_metadata.json", "glob_meta output_dir'", "list Z"),
+           _LEN0, ("__l[0]", "!shead {l}", "spath", {"l": "list spath"}), ("__l[0]", "!shead {l}", "Z", {"l": "list Z"}),
+           ("json.load(__f)", "{f}", "Z", {"f": "Z"}),
+           # the returned dict: a record with one field per key
+           ("{'test_screen': __a, 'training_screen': __b, 'screen_metadata': __c}", "mkif {a} {b} {c}", "initial_files",
+            {"a": "spath", "b": "spath", "c": "Z"})],
+)
+ALL += [C19_VALIDATE_INITIAL]
+# get_args: the parser object held in `parser` is its option table (Orchestrate.optspec list); every add_argument call appends the
+# entry its arguments denote - WHICH option string, conversion, required flag, default and choices come from the call's own
+# argument list (typed holes: anything else, e.g. a new keyword such as nargs= / dest= / action=, a str default, is refused);
+# the help text is evaluated and not used.  `cmdline` (no variable of the source) is sys.argv[1:].
+C19_GET_ARGS = dict(
+    file="nextflow/scripts/batchie.py", out="SrcOrchArgs.v", imports="Model.Orchestrate", monad=_SRES, str_consts="str",
+    func="get_args", name="src_get_args", pyparams=[], params=[("cmdline", "list str")], returns="(namespace * list str)",
+    vars={"parser": "list optspec", "args": "namespace", "remaining_args": "list str"},
+    prims=[("argparse.ArgumentParser(description=__d)", "[]", "list optspec", {"d": "str"}),      # a new parser: no option yet
+           ("str", "TStr", "argtype"), ("int", "TInt", "argtype"),                                # the builtin type objects as type=
+           # argparse itself: Orchestrate.parse_known_args on the table built so far and the command line
+           ("__p.parse_known_args()", "!parse_known_args {p} cmdline", "(namespace * list str)", {"p": "list optspec"})],
+    typed_effects=[
+        ("parser.add_argument(__n, type=__t, required=__r, help=__h)", "parser'", "{state} ++ [mko {n} {t} {r} None]",
+         {"n": "str", "t": "argtype", "r": "bool", "h": "str"}),
+        ("parser.add_argument(__n, type=__t, default=__d, help=__h)", "parser'", "{state} ++ [mko {n} {t} false (Some {d})]",
+         {"n": "str", "t": "argtype", "d": "Z", "h": "str"}),
+        ("parser.add_argument(__n, choices=__c, required=__r, help=__h)", "parser'", "{state} ++ [mko {n} (TChoice {c}) {r} None]",
+         {"n": "str", "c": "list str", "r": "bool", "h": "str"}),
+    ],
+)
+ALL += [C19_GET_ARGS]
+# the five one-line path helpers: os.path calls are primitives over Orchestrate.fspath (an absolute path = its components); the
+# module global __file__ is the Gallina parameter of that name (type pyfile: the path realpath resolves it to); the string
+# literals ("..", "nextflow.config", "main.nf"), the nesting of the calls and WHICH helper each one builds on come from the
+# translation; a helper calling another calls its translation.
+_PATHS = dict(
+    file="nextflow/scripts/batchie.py", out="SrcOrchPaths.v", imports="Model.Orchestrate", monad=_SRES, str_consts="str", overload=True,
+    pyparams=[], params=[("__file__", "pyfile")], returns="fspath", vars={},
+    prims=[("os.path.realpath(__f)", "realpath_of {f}", "fspath", {"f": "pyfile"}),
+           ("os.path.dirname(__p)", "dirname {p}", "fspath", {"p": "fspath"}),
+           ("os.path.abspath(__p)", "abspath {p}", "fspath", {"p": "fspath"}),
+           ("os.path.join(__a, __b)", "path_join {a} [{b}]", "fspath", {"a": "fspath", "b": "str"}),
+           ("os.path.join(__a, __b, __c)", "path_join {a} [{b}; {c}]", "fspath", {"a": "fspath", "b": "str", "c": "str"}),
+           ("get_script_location()", "!src_get_script_location __file__", "fspath"),
+           ("get_nextflow_dir()", "!src_get_nextflow_dir __file__", "fspath"),
+           ("get_repository_root()", "!src_get_repository_root __file__", "fspath")],
+)
+C19_PATH_SCRIPT_LOCATION = dict(_PATHS, func="get_script_location", name="src_get_script_location")
+C19_PATH_NEXTFLOW_DIR = dict(_PATHS, func="get_nextflow_dir", name="src_get_nextflow_dir")
+C19_PATH_BASE_CONFIG = dict(_PATHS, func="get_base_config", name="src_get_base_config")
+C19_PATH_REPOSITORY_ROOT = dict(_PATHS, func="get_repository_root", name="src_get_repository_root")
+C19_PATH_MAIN_NF = dict(_PATHS, func="get_main_nf_file", name="src_get_main_nf_file")
+ALL += [C19_PATH_SCRIPT_LOCATION, C19_PATH_NEXTFLOW_DIR, C19_PATH_BASE_CONFIG, C19_PATH_REPOSITORY_ROOT, C19_PATH_MAIN_NF]
+# the four run_* command builders once more, CLOSED over the path helpers: get_main_nf_file() / get_repository_root() are calls of
+# the TRANSLATED helpers above on __file__ (instead of the opaque word WMainNf of C19_RUN_*); a path used as a command-line word is
+# Orchestrate.word_of_file root - `root` (no variable of the source) is the checkout whose main.nf is the pipeline the model
+# describes; the working directory of check_call is evaluated and not interpreted (nextflow's own cache and logs are abstracted).
+_CMD_CLOSED = dict(
+    _CMD, out="SrcOrchCmdClosed.v", imports="Model.Orchestrate Generated.SrcOrchPaths",
+    coerce=_CMD["coerce"] + [("fspath", _OW, "Some (word_of_file root {x})")],
+    prims=[q for q in _CMD["prims"] if q[0] != "get_main_nf_file()"] + [
+        ("get_main_nf_file()", "!src_get_main_nf_file __file__", "fspath"),
+        ("get_repository_root()", "!src_get_repository_root __file__", "fspath")],
+    typed_effects=[_CMD["typed_effects"][0],
+                   ("subprocess.check_call(__c, cwd=__d)", "acts", "!check_call {state} {c}", {"c": "list opt word", "d": "fspath"})],
+)
+_CLOSED_PARAMS = [("root", "fspath"), ("__file__", "pyfile")]
+C19_RUN_INITIAL_CLOSED = dict(_CMD_CLOSED, func="run_initial_plate", name="src_run_initial_plate_closed", pyparams=C19_RUN_INITIAL["pyparams"],
+                              params=_CLOSED_PARAMS + C19_RUN_INITIAL["params"], vars=C19_RUN_INITIAL["vars"])
+C19_RUN_FIRST_CLOSED = dict(_CMD_CLOSED, func="run_first_batch_plate", name="src_run_first_batch_plate_closed", pyparams=C19_RUN_FIRST["pyparams"],
+                            params=_CLOSED_PARAMS + C19_RUN_FIRST["params"], vars=C19_RUN_FIRST["vars"])
+C19_RUN_FIRST_PROSP_CLOSED = dict(_CMD_CLOSED, func="run_first_prospective_batch_plate", name="src_run_first_prospective_batch_plate_closed",
+                                  pyparams=C19_RUN_FIRST_PROSP["pyparams"], params=_CLOSED_PARAMS + C19_RUN_FIRST_PROSP["params"],
+                                  vars=C19_RUN_FIRST_PROSP["vars"])
+C19_RUN_SUBSEQUENT_CLOSED = dict(_CMD_CLOSED, func="run_subsequent_batch_plate", name="src_run_subsequent_batch_plate_closed",
+                                 pyparams=C19_RUN_SUBSEQUENT["pyparams"], pydefaults=C19_RUN_SUBSEQUENT["pydefaults"],
+                                 params=_CLOSED_PARAMS + C19_RUN_SUBSEQUENT["params"], vars=C19_RUN_SUBSEQUENT["vars"])
+ALL += [C19_RUN_INITIAL_CLOSED, C19_RUN_FIRST_CLOSED, C19_RUN_FIRST_PROSP_CLOSED, C19_RUN_SUBSEQUENT_CLOSED]
